@@ -8,7 +8,7 @@ Tag forms (JSON lists):
   ["dt", ordinal, secs] ["F", hex]  class F(float) instance      ["S", str] class S(str)
   ["IE", int] IntEnum member   ["I2", int] class I2(int)         ["DT2", ord, secs] datetime subclass
   ["Dec", "1.5"] Decimal  ["Fr", n, d] Fraction  ["td", days] timedelta
-  ["U1", id] / ["U2", id] user classes   ["O"] object()
+  ["U1", id] / ["U2", id] user classes   ["O"] object()   ["NC", word] non-commutative arithmetic
   ["l", [tags]] list   ["t", [tags]] tuple   ["D", [[k, v], ...]] dict   ["?", repr] unknown
 """
 import datetime as _dt
@@ -69,8 +69,61 @@ class U2:
         return f"U2({self.i})"
 
 
+class NC:
+    """A value whose arithmetic is NOT commutative: every operator builds the word
+    "(left<op>right)", so a swapped operand order is visible in the result (C05).
+    Tag ["NC", word]."""
+
+    def __init__(self, w):
+        self.w = str(w)
+
+    @staticmethod
+    def _word(o):
+        return o.w if isinstance(o, NC) else repr(o)
+
+    def _mk(sym):                                            # noqa: N805
+        def fwd(self, o):
+            if not isinstance(o, (NC, int)):
+                return NotImplemented
+            return NC(f"({self.w}{sym}{NC._word(o)})")
+
+        def rev(self, o):
+            if not isinstance(o, (NC, int)):
+                return NotImplemented
+            return NC(f"({NC._word(o)}{sym}{self.w})")
+        return fwd, rev
+
+    __add__, __radd__ = _mk("+")
+    __sub__, __rsub__ = _mk("-")
+    __mul__, __rmul__ = _mk("*")
+    __truediv__, __rtruediv__ = _mk("/")
+    __floordiv__, __rfloordiv__ = _mk("//")
+    __mod__, __rmod__ = _mk("%")
+    __pow__, __rpow__ = _mk("**")
+
+    def __neg__(self):
+        return NC(f"(-{self.w})")
+
+    def __pos__(self):
+        return NC(f"(+{self.w})")
+
+    def __abs__(self):
+        return NC(f"|{self.w}|")
+
+    def __eq__(self, o):
+        return type(o) is NC and o.w == self.w
+
+    def __hash__(self):
+        return hash(("NC", self.w))
+
+    def __repr__(self):
+        return f"NC({self.w!r})"
+
+
 def dec(t):
     k = t[0]
+    if k == "NC":
+        return NC(t[1])
     if k == "N":
         return None
     if k == "b":
@@ -164,6 +217,8 @@ def enc(x):
         return ["U2", x.i]
     if ty is object:
         return ["O"]
+    if ty is NC:
+        return ["NC", x.w]
     if ty is list:
         return ["l", [enc(e) for e in x]]
     if ty is tuple:
@@ -184,6 +239,7 @@ _TAG_KIND = {
     "l": ("KList", True), "t": ("KTuple", True), "D": ("KDict", True),
     "Dec": ("(KOther 0)", True), "Fr": ("(KOther 1)", True), "td": ("(KOther 2)", True),
     "U1": ("(KOther 3)", True), "U2": ("(KOther 4)", True), "O": ("KObject", True),
+    "NC": ("(KOther 5)", True),
 }
 
 
@@ -211,7 +267,7 @@ def kind_token_of_type(ty):
             bytes: "KBytes", _dt.datetime: "KDateTime", _dt.date: "KDate", list: "KList",
             dict: "KDict", tuple: "KTuple", decimal.Decimal: "(KOther 0)",
             fractions.Fraction: "(KOther 1)", _dt.timedelta: "(KOther 2)", U1: "(KOther 3)",
-            U2: "(KOther 4)", object: "KObject",
+            U2: "(KOther 4)", object: "KObject", NC: "(KOther 5)",
             # subclasses used as kinds would be a defect; give them their own tokens
             F: "(KOther 10)", S: "(KOther 11)", IE: "(KOther 12)", I2: "(KOther 13)", DT2: "(KOther 14)",
         }
